@@ -65,12 +65,12 @@ func ItemsEqual(it, with Item) bool {
 			result = i.Equals(with)
 			return nil
 		})
-		if typ := with.GetType(); typ == ActivityType || ActivityTypes.Contains(typ) {
+		if typ := with.GetType(); (ActivityVocabularyTypes{ActivityType}).Contains(typ) || ActivityTypes.Contains(typ) {
 			_ = OnActivity(it, func(i *Activity) error {
 				result = i.Equals(with)
 				return nil
 			})
-		} else if typ == ActorType || ActorTypes.Contains(typ) {
+		} else if (ActivityVocabularyTypes{ActorType}).Contains(typ) || ActorTypes.Contains(typ) {
 			_ = OnActor(it, func(i *Actor) error {
 				result = i.Equals(with)
 				return nil
